@@ -180,15 +180,29 @@ func Open(fileName string, opts *Options) (*AppendableFile, error) {
 	} else {
 		r := bufio.NewReader(f)
 
-		mLenBs := make([]byte, 4)
-		_, err := io.ReadFull(r, mLenBs)
+		finfo, err := f.Stat()
 		if err != nil {
+			f.Close()
+			return nil, err
+		}
+
+		mLenBs := make([]byte, 4)
+		_, err = io.ReadFull(r, mLenBs)
+		if err != nil {
+			f.Close()
 			return nil, ErrCorruptedMetadata
 		}
 
-		mBs := make([]byte, binary.BigEndian.Uint32(mLenBs))
+		mLen := binary.BigEndian.Uint32(mLenBs)
+		if int64(mLen) > finfo.Size()-4 {
+			f.Close()
+			return nil, ErrCorruptedMetadata
+		}
+
+		mBs := make([]byte, mLen)
 		_, err = io.ReadFull(r, mBs)
 		if err != nil {
+			f.Close()
 			return nil, ErrCorruptedMetadata
 		}
 
